@@ -71,13 +71,14 @@ SGE = {"S": "qw", "R": "r"}
 LSF = {"S": "PEND", "R": "RUN", "C": "DONE", "X": "EXIT", "K": "EXIT"}
 
 
-def workflow_text(scn, perm, order, shapes):
+def workflow_text(scn, perm, order, shapes, variant=0):
     lines = ["from gwf import Workflow", "gwf = Workflow()"]
     for t in order:
         si, so = shapes[t]
         lines.append(
             "gwf.target(%r, inputs=%s, outputs=%s) << %r"
-            % (perm[t], defs.shape_src(sorted(scn["in"][t]), si), defs.shape_src(sorted(scn["out"][t]), so), defs.SPEC_TEXT % t)
+            % (perm[t], defs.shape_src([defs.fname(f, variant) for f in sorted(scn["in"][t])], si),
+               defs.shape_src([defs.fname(f, variant) for f in sorted(scn["out"][t])], so), defs.SPEC_TEXT % t)
         )
     return "\n".join(lines) + "\n"
 
@@ -97,9 +98,9 @@ def setup_project(sb, scn, variant, backend, extra_conf=None):
     from ..sandbox import BASE_TIME
 
     sb.base = 0 if variant % 5 == 2 else BASE_TIME      # logical mtime 0 = the epoch itself for a share of the projects
-    sb.write("workflow.py", workflow_text(scn, perm, order, shapes))
+    sb.write("workflow.py", workflow_text(scn, perm, order, shapes, variant))
     for f, m in scn["fs"].items():
-        sb.set_file(f, m)
+        sb.set_file(defs.fname(f, variant), m)
     conf = {"backend": backend}
     if scn["hash"]:
         conf["use_spec_hashes"] = True
